@@ -35,8 +35,8 @@ class ModelsReadV1(Contract):
     fitter are the result of ConvolvedFluxes.interpolate at the aperture radii theta_f [arcsec] x d_k [pc] AU, times
     (1 kpc / d_k)^2; logd[k] = log10(d_k / kpc); the wavelength of filter f is the central wavelength of its file."""
     name = MODELS + '._read_version_1'
-    properties = ('C02',)
-    variants = ('two_filters',)
+    properties = ('C02', 'C04')
+    variants = ('two_filters', 'two_filters/pc')       # (the distance range given in kpc / in pc)
     assume_pre_of = (CF + '.interpolate',)
 
     def setup(self, c, variant):
@@ -51,8 +51,9 @@ class ModelsReadV1(Contract):
         self.theta = [c.real('theta%d' % i) for i in range(2)]
         filters = c.list([c.dict({'name': 'F%d' % i, 'aperture_arcsec': self.theta[i]}) for i in range(2)])
         self.dr = c.array('distance_range', (2,))
+        self.range_unit = U['pc'] if variant.endswith('/pc') else U['kpc']
         ci = c.interp.repo.find_class(MODELS)
-        return dict(cls=ClassVal(ci), directory='MODELDIR', filters=filters, distance_range=Quantity(self.dr, U['kpc']), remove_resolved=None)
+        return dict(cls=ClassVal(ci), directory='MODELDIR', filters=filters, distance_range=Quantity(self.dr, self.range_unit), remove_resolved=None)
 
     def result(self, c, a):
         # at a call site (Models.read): the models object of the package, described by the caller's set-up
@@ -76,7 +77,8 @@ class ModelsReadV1(Contract):
         if not hasattr(self, 'dr'):
             return {}
         d = c.A(self.dr)
-        d0, d1 = d[0], d[1]
+        du = self.range_unit.scale / U['kpc'].scale          # the range in kpc, whatever unit it was given in
+        d0, d1 = d[0] * du, d[1] * du
         q = c.attr(result, '_distances')
         D = c.A(q)
         n = D.n
@@ -123,7 +125,7 @@ class ModelsReadV2(ModelsReadV1):
     memory mapping off): the two readers are separate copies of the same code and are verified separately."""
     name = MODELS + '._read_version_2'
     properties = ('C02', 'C16')
-    variants = ('two_filters', 'one_wavelength')
+    variants = ('two_filters', 'one_wavelength', 'two_filters/pc')
     assume_pre_of = (CF + '.interpolate', 'sedfitter.sed.cube.BaseCube.read')
 
     def requires(self, c, a):
